@@ -53,6 +53,39 @@ def stepped_docs(rng, n):
     return docs
 
 
+def dense_docs(rng, n):
+    """three terms (a, b, ab) in *every* document, frequencies constant over runs of documents and raised on the
+    first document of some runs: a conjunction of the three holds every document, so its nested intersections
+    move posting by posting inside a block and land on the first document of the next (better) one"""
+    runlen = rng.choice([2, 3, 4])
+    nruns = n // runlen + 2
+    lv = [[rng.choice([1, 1, 1, 2, 3]) for _ in range(nruns)] for _ in range(3)]
+    docs = {}
+    for i in range(n):
+        r = i // runlen
+        tfs = [lv[0][r], lv[1][r], lv[2][r]]
+        if i % runlen == 0 and r > 0 and (r * 7 + runlen) % 3 != 0:
+            tfs = [tfs[0] * 4, tfs[1] * 4, tfs[2]]
+        if i == 1:
+            tfs = [tfs[0] + 1, tfs[1] + 1, tfs[2]]       # an early, slightly better document sets the threshold
+        docs["k%02d" % i] = {"t": {"body": [[1]] * tfs[0] + [[2]] * tfs[1] + [[1, 2]] * tfs[2], "title": []},
+                             "n": {}, "b4": 4}
+    return docs
+
+
+def dense_query(rng):
+    ts = [{"op": "term", "f": "body", "t": t, "b4": 4} for t in ([1], [2], [1, 2])]
+    rng.shuffle(ts)
+    form = rng.choice(["and3", "and3", "nested-left", "nested-right", "andmaybe"])
+    if form == "and3":
+        return {"op": "and", "kids": ts, "b4": 4}
+    if form == "nested-left":
+        return {"op": "and", "kids": [{"op": "and", "kids": ts[:2], "b4": 4}, ts[2]], "b4": 4}
+    if form == "nested-right":
+        return {"op": "and", "kids": [ts[0], {"op": "and", "kids": ts[1:], "b4": 4}], "b4": 4}
+    return {"op": "andmaybe", "a": {"op": "and", "kids": ts[:2], "b4": 4}, "b": ts[2]}
+
+
 def windowed_docs(rng, n):
     """mostly empty documents; a few carriers in the first 2048-document window and better ones after it"""
     docs = {}
@@ -217,6 +250,12 @@ def check(run):
                                    ndocs=(12, 30), docgen=stepped_docs, qgen=stepped_query, plangen=stepped_plan,
                                    blocklimits=(1, 2, 3, 4), sweep=True)
     c11.judge_traces(run, "C12", trs, meta, "c12-sweep")
+    c11.NOTIMPL.clear()
+    # ... and on lists where every document holds all three terms of a conjunction (nested intersections)
+    trs, meta, cases = c11.collect(run, rng, 4 if quick else 30, 8 if quick else 12, "exact", thresholds, quality=True,
+                                   ndocs=(12, 24), docgen=dense_docs, qgen=dense_query, plangen=stepped_plan,
+                                   blocklimits=(2, 3, 4), sweep=True)
+    c11.judge_traces(run, "C12", trs, meta, "c12-dense-sweep")
     c11.NOTIMPL.clear()
     run.extra["quality_events"] += sum(1 for t in trs for e in t if e["ev"] in ("quality", "blockscan", "skipq", "replace"))
     # positional queries on the stepped lists (a span matcher sits on top of a conjunction that moves by blocks)
